@@ -278,6 +278,28 @@ func (ms *mainSim) probeTCP(addr string, k *Key, wire []byte) *probeResult {
 	return res
 }
 
+// slowProbe connects to addr, sends wire after d, leaves its side open and
+// reports how long after connecting the server ended the connection.
+func (ms *mainSim) slowProbe(addr string, wire []byte, d time.Duration) (time.Duration, *simnet.TCPConn) {
+	ms.nProbe++
+	ip, port := dialIP(addr)
+	cip := net.IPv4(198, 18, 22, byte(1+ms.nProbe%200)).To4()
+	if ip.To4() == nil {
+		cip = net.ParseIP(fmt.Sprintf("2001:db8:22::%x", 1+ms.nProbe%200))
+	}
+	cc, err := ms.W.Connect(&net.TCPAddr{IP: cip, Port: 30000 + ms.nProbe}, ip, port)
+	if err != nil {
+		return -1, nil
+	}
+	t0 := simrt.Elapsed()
+	simrt.Sleep(d)
+	cc.Write(wire)
+	readAll(cc)
+	el := simrt.Elapsed() - t0
+	cc.Close()
+	return el, cc
+}
+
 // probeUDP sends one datagram under key k to the UDP listener at addr and
 // reports the key id of the association it created ("" if none).
 func (ms *mainSim) probeUDP(addr string, k *Key) (authID string, delivered bool) {
